@@ -1,4 +1,103 @@
-(* C10 - placeholder while the proofs are being written *)
-Require Import D42.Prelude D42.Declare.
-Example c10_stub : run [] (bare KdNone) = Ok (bare KdNone).
+(* C10 - A declaration either fails cleanly or yields a self-consistent schema.
+   Only statements here; proofs are in proofs/DeclareSpec.v and proofs/DeclareInv.v.
+
+   [decl m s args] is the call  s.m(args...)  of the model (theories/Declare.v):
+   Ok s' = returns s', Err DeclErr = raises DeclarationError, Raise e = another exception.
+   "The receiver is unchanged" is not a theorem: schemas are values in the model; the
+   harness observes repr/props of the receiver before and after every call. *)
+
+Require Import D42.Prelude D42.PyFloat D42.Value D42.Regex D42.Schema D42.Validate D42.Conforms
+               D42.CaseLib D42.Declare.
+Require Import D42P.DeclareSpec D42P.DeclareInv.
+
+(* Whatever the arguments are (any type, any number of wrongly typed ones), a call of a
+   method the type has, with a number of arguments Python accepts, never lets an exception
+   other than DeclarationError escape.  [arity_ok] : the type has the method, the argument
+   count fits its signature, and a str offered to regex() comes with its parse info. *)
+Theorem decl_only_declerr :
+  forall m s args, arity_ok (kind_of s) m args = true -> forall e, decl m s args <> Raise e.
+Proof. exact decl_only_declerr_lemma. Qed.
+Print Assumptions decl_only_declerr.
+
+(* ... and so for call chains of any length *)
+Theorem run_only_declerr :
+  forall ops s, Forall (fun o : op => arity_ok (kind_of s) (fst o) (snd o) = true) ops ->
+  forall e, run ops s <> Raise e.
+Proof. exact run_only_declerr_lemma. Qed.
+Print Assumptions run_only_declerr.
+
+(* Re-declaring an already declared property is rejected, for any arguments. *)
+Theorem redeclare_rejected :
+  forall m s args, prop_declared m s = true -> arity_ok (kind_of s) m args = true ->
+  decl m s args = Err DeclErr.
+Proof. exact redeclare_rejected_lemma. Qed.
+Print Assumptions redeclare_rejected.
+
+(* The invariant [dsl_inv] (decidable: value consistent with every constraint, regex
+   exclusive with len/alphabet/contains, len(n) exclusive with len(a, b), elements xor type,
+   `...` first/last only, lengths consistent with the element list, dict keys distinct,
+   any-alternatives flattened; hereditary) holds for every bare type and is preserved by
+   every successful declaration whose schema arguments satisfy it. *)
+Theorem bare_dsl_inv : forall k, dsl_inv (bare k) = true.
+Proof. exact bare_inv. Qed.
+Print Assumptions bare_dsl_inv.
+
+(* A returned schema satisfies the invariant, and if it carries a fixed value (a declared
+   value; or a fully fixed element list: every element carries one, no `...`) that is not
+   NaN / does not contain NaN, the schema accepts that value: the validator reports no
+   error, and the value conforms to the declarative meaning (D42.Conforms). *)
+Theorem decl_fixed_conforms :
+  forall m s args s',
+  dsl_inv s = true -> args_inv args = true -> decl m s args = Ok s' ->
+  dsl_inv s' = true /\
+  forall v, fixed s' = Some v -> value_no_nan v = true -> verdict s' v = true /\ conforms s' v.
+Proof. exact decl_fixed_conforms_lemma. Qed.
+Print Assumptions decl_fixed_conforms.
+
+Theorem run_dsl_inv :
+  forall ops s s', dsl_inv s = true -> Forall (fun o : op => args_inv (snd o) = true) ops ->
+  run ops s = Ok s' -> dsl_inv s' = true.
+Proof. exact run_inv_lemma. Qed.
+Print Assumptions run_dsl_inv.
+
+(* F10 (open finding): without the NaN exclusion the statement is false -
+   schema.float(nan) is accepted and rejects its own value (isclose(nan, nan) is False). *)
+Theorem decl_fixed_conforms_refuted :
+  exists m s args s' v,
+    dsl_inv s = true /\ args_inv args = true /\ arity_ok (kind_of s) m args = true /\
+    decl m s args = Ok s' /\ fixed s' = Some v /\ verdict s' v = false.
+Proof.
+  exists MCall, (bare KdFloat), [AVal (VFloat fnan)], (SFloat (Some fnan) None None None), (VFloat fnan).
+  vm_compute. repeat split; reflexivity.
+Qed.
+Print Assumptions decl_fixed_conforms_refuted.
+
+(* ---- non-vacuity ---- *)
+Open Scope N_scope.
+(* schema.str("banana").regex("an+a") is accepted ... *)
+Definition ex_anna : list re := [RLit 97; RRepeat false 1 None [RLit 110]; RLit 97].
+Example ex_regex_ok :
+  run [(MCall, [AVal (VStr [98;97;110;97;110;97])]); (MRegex, [APattern [97;110;43;97] ex_anna true])]
+      (bare KdStr)
+  = Ok (SStr (Some [98;97;110;97;110;97]) None None None None None (Some ([97;110;43;97], ex_anna))).
+Proof. vm_compute. reflexivity. Qed.
+(* ... schema.int(0).min(1) is rejected, schema.int.min(1).min(0) is a re-declaration ... *)
+Example ex_contradiction :
+  run [(MCall, [AVal (VInt 0%Z)]); (MMin, [AVal (VInt 1%Z)])] (bare KdInt) = Err DeclErr.
+Proof. vm_compute. reflexivity. Qed.
+Example ex_redeclared : prop_declared MMin (SInt None (Some (IInt 1%Z)) None) = true.
 Proof. reflexivity. Qed.
+(* ... and a nested fixed list satisfies all hypotheses of decl_fixed_conforms *)
+Definition ex_list_arg : arg :=
+  AList [ASchema (SInt (Some (IInt 1%Z)) (Some (IInt 0%Z)) None);
+         ASchema (SList (Some [Some (SStr (Some [97]) (Some (IInt 1%Z)) None None None None None)])
+                        None None None None)].
+Example ex_fixed_list :
+  exists s', decl MCall (bare KdList) [ex_list_arg] = Ok s' /\ args_inv [ex_list_arg] = true /\
+             fixed s' = Some (VList [VInt 1%Z; VList [VStr [97]]]).
+Proof. eexists. vm_compute. repeat split; reflexivity. Qed.
+Example ex_wrong_types :
+  decl MLen (bare KdStr) [AVal VEllipsis; AVal VNil] = Err DeclErr /\
+  decl MCall (bare KdDict) [ADict [(DKey KEll, ASchema SNone)]] = Err DeclErr /\
+  arity_ok KdStr MLen [AVal VEllipsis; AVal VNil] = true.
+Proof. vm_compute. repeat split; reflexivity. Qed.
